@@ -1,7 +1,90 @@
 import PydlVerif.Model.JsonUtil
+import PydlVerif.Model.Interp
+import PydlVerif.Model.Reject
 open Lean
 namespace PydlVerif.Driver.C17
+open PydlVerif PydlVerif.Interp PydlVerif.Reject
 
-def handle (_j : Json) : Except String Json := throw "C17: no model operations yet"
+def resJ {α} (f : α → Json) : Except String α → Json
+  | .ok v => Json.mkObj [("ok", f v)]
+  | .error e => Json.mkObj [("err", Json.str e)]
+
+def floats (j : Json) (k : String) : Except String (List Float) := do J.list J.float (← J.fld j k)
+def bools (j : Json) : Except String (List Bool) := do
+  let l ← J.list J.nat j
+  pure (l.map (· != 0))
+def ofBools (l : List Bool) : Json := J.ofList (fun b => J.ofNat (if b then 1 else 0)) l
+def ofFloats (l : List Float) : Json := J.ofList J.ofFloat l
+
+def method (s : String) : Method :=
+  match s with
+  | "traditional" => .traditional
+  | "noconst" => .noconst
+  | "mean" => .mean
+  | "nothing" => .nothing
+  | "damp" => .damp
+  | _ => .unknown
+
+def handle (j : Json) : Except String Json := do
+  let op ← J.fStr j "op"
+  match op with
+  | "interp" =>
+    let xp ← floats j "xp"
+    let fp ← floats j "fp"
+    let xs ← floats j "x"
+    pure (resJ ofFloats (xs.mapM (npInterpE (xp.zip fp))))
+  | "mi1" =>
+    let y ← floats j "y"
+    let bad ← bools (← J.fld j "bad")
+    let x ← J.fOpt (J.list J.float) j "x"
+    let const ← J.fBool j "const"
+    match x with
+    | none => pure (ofFloats (maskinterp1 y bad const))
+    | some xv => pure (ofFloats (maskinterp1X y bad xv (argsortIns xv) const))
+  | "mi" =>
+    let yshape ← J.fNats j "yshape"
+    let mshape ← J.fNats j "mshape"
+    let xshape ← J.fOpt (J.list J.nat) j "xshape"
+    let y ← floats j "y"
+    let bad ← bools (← J.fld j "bad")
+    let x ← floats j "x"
+    let axis ← J.fOpt J.int j "axis"
+    let const ← J.fBool j "const"
+    pure (resJ ofFloats (maskinterp argsortIns yshape mshape xshape y bad x axis const))
+  | "aes" =>
+    let flux ← floats j "flux"
+    let invvar ← floats j "invvar"
+    let m ← J.fStr j "method"
+    let mean ← J.fFloat j "mean"
+    pure (resJ ofFloats (aesthetics flux invvar (method m) mean))
+  | "med" =>
+    let a ← floats j "a"
+    let w ← J.fNat j "w"
+    pure (resJ ofFloats (djsMedianReflect medOdd a w))
+  | "rej" =>
+    let data ← floats j "data"
+    let model ← J.fOpt (J.list J.float) j "model"
+    let outmask ← J.fOpt bools j "outmask"
+    let inmask ← J.fOpt bools j "inmask"
+    let s ← floats j "s"
+    let o : Opts Float := {
+      useSigma := ← J.fBool j "useSigma"
+      lower := ← J.fOpt J.float j "lower"
+      upper := ← J.fOpt J.float j "upper"
+      maxdev := ← J.fOpt J.float j "maxdev"
+      hasIn := inmask.isSome
+      sticky := ← J.fBool j "sticky"
+      grow := ← J.fNat j "grow" }
+    pure (resJ (fun (r : List Bool × Bool) => Json.arr #[ofBools r.1, Json.bool r.2])
+      (djsReject Float.sqrt o data model outmask inmask s))
+  | "sky" =>
+    let inv ← J.list (J.list J.float) (← J.fld j "invvar")
+    let om ← J.fOpt (J.list (J.list J.int)) j "ormask"
+    let ngrow ← J.fNat j "ngrow"
+    let rows := match om with
+      | none => inv.map (fun r => skymaskRow r none ngrow)
+      | some oms => List.zipWith (fun r o => skymaskRow r (some o) ngrow) inv oms
+    pure (J.ofList ofFloats rows)
+  | _ => throw s!"C17: unknown op {op}"
 
 end PydlVerif.Driver.C17
